@@ -212,6 +212,9 @@ int main(int argc, char** argv) {
   E.assumptions = {"reference = bit-at-a-time loops written from the GLSL text quoted in glm/integer.hpp; cross-checked against __builtin_popcountll/ctzll/clzll on every enumerated input"};
   reg<glm::int8>(E, "i8"); reg<glm::uint8>(E, "u8"); reg<glm::int16>(E, "i16"); reg<glm::uint16>(E, "u16");
   reg<glm::int32>(E, "i32"); reg<glm::uint32>(E, "u32"); reg<glm::int64>(E, "i64"); reg<glm::uint64>(E, "u64");
+  { // the other builtin 64-bit pair (long where glm::int64 is long long and vice versa: which one int64 names depends on the language level)
+    typedef std::conditional<std::is_same<glm::int64, long>::value, long long, long>::type oi64; typedef std::conditional<std::is_same<glm::uint64, unsigned long>::value, unsigned long long, unsigned long>::type ou64;
+    reg<oi64>(E, "i64-other-builtin"); reg<ou64>(E, "u64-other-builtin"); }   // configuration-independent names: the differential check (C15) pairs operations by name
   // extended 32-bit arithmetic: EDGE x EDGE and all half-word boundary combinations
   std::vector<uint64_t> hw; { const uint32_t h[6] = {0, 1, 0x7FFF, 0x8000, 0xFFFE, 0xFFFF}; for (uint32_t a : h) for (uint32_t b : h) hw.push_back((a << 16) | b); }
   Domain e32 = INT_EDGE(32), hwd = list("HALFWORD_BOUNDARIES", hw);
